@@ -658,6 +658,33 @@ def run(chk):
         process_trees(chk, part)
     chk.exhaustive = n_small is None
     history_stream(chk, 300 if quick else 3000)
+    entrypoint_stream(chk, strings, trees)
+
+
+def entrypoint_stream(chk, strings, trees):
+    """penman.parse / PENMANCodec.parse / iterparse (both) and penman.format / PENMANCodec.format must agree."""
+    from harness import entrypoints
+    from penman.tree import Tree
+    rng = chk.rng
+    sample = rng.sample(strings, min(len(strings), 2500 if chk.tier == 'quick' else 25000))
+    # texts with characters that str.splitlines() (but not the lexer) treats as line ends, inside strings / symbols / metadata
+    for ch in '\u2028\u2029\x85\x0b\x0c\x1c\x1d\x1e':
+        sample += ['(a / "x%sy" :r b%sc)' % (ch, ch), '# ::snt u%sv\n(a / b)' % ch, '(a / b :r "p%s")\n' % ch]
+    for s in sample:
+        bad = entrypoints.disagreement(entrypoints.parse_variants(s))
+        chk.count(('entry', s))
+        if bad:
+            chk.fail('entry-point', 'the ways of parsing a text disagree: ' + bad, {'stream': 'entry-points', 'text': s})
+    for kind, node, meta in rng.sample(trees, min(len(trees), 800)):
+        try:
+            t = Tree(node, metadata=dict(meta))
+        except Exception:      # noqa
+            continue
+        for ind, cmp in ((-1, False), (None, True), (2, False)):
+            bad = entrypoints.disagreement(entrypoints.format_variants(t, ind, cmp))
+            if bad:
+                chk.fail('entry-point', 'the ways of formatting a tree disagree: ' + bad, {'stream': 'entry-points', 'tree': node})
+    chk.stat('entry-point-texts', len(sample))
 
 
 def history_stream(chk, n):
